@@ -13,6 +13,8 @@ NEUTRALS = [{'name': 'reorder independent class attributes', 'file': 'partitura/
 
 # changes made by sub-agents that were given only the property text (see /verif/seeded/<id>/): each must stay reported
 SEEDED = [
+    {'name': 'seeded change C07-r5b', 'seed': 'C07-r5b', 'expect': '|F11|'},
+    {'name': 'seeded change C07-r5a', 'seed': 'C07-r5a', 'expect': '|SIB-fmt|'},
     {'name': 'seeded change C07-r4b', 'seed': 'C07-r4b', 'expect': '|ATTR-norm|'},
     {'name': 'seeded change C07-r4a', 'seed': 'C07-r4a', 'expect': '|SIB-fmt|'},
     {'name': 'seeded change C07-r3', 'seed': 'C07-r3', 'expect': '|F1-obs|'},
